@@ -426,6 +426,10 @@ class QueryScheduler:
                 <= refresh_time_millis - current.when_millis
                 <= self._min_time_between_queries_millis
             ):
+                # Keep the schedule, but the rescue queries that follow it must
+                # be spaced and bounded by the TTL the record has now
+                current.ttl = int(pointer.ttl) if isinstance(pointer.ttl, float) else pointer.ttl
+                current.expire_time_millis = pointer.get_expiration_time(100)
                 return
             current.cancelled = True
             del self._next_scheduled_for_alias[pointer.alias_key]
